@@ -62,3 +62,55 @@ pub mod desc {
         mk(raw).get_index()
     }
 }
+
+/// A private chunk-state mmapper (the global `MMAPPER` is not touched).
+pub mod csm {
+    use crate::util::heap::layout::verif_private::ChunkStateMmapper;
+    use crate::util::heap::layout::Mmapper;
+    use crate::util::os::{HugePageSupport, MmapAnnotation, MmapProtection};
+    use crate::util::Address;
+
+    /// Wrapper around a private `ChunkStateMmapper`.
+    pub struct Csm(ChunkStateMmapper);
+
+    impl Default for Csm {
+        fn default() -> Self {
+            Self::new()
+        }
+    }
+
+    impl Csm {
+        /// `ChunkStateMmapper::new()`
+        pub fn new() -> Self {
+            Csm(ChunkStateMmapper::new())
+        }
+        /// `quarantine_address_range(start, pages, No, test annotation)`; `Err` = the OS call failed.
+        pub fn quarantine(&self, start: Address, pages: usize) -> Result<(), String> {
+            self.0
+                .quarantine_address_range(start, pages, HugePageSupport::No, &MmapAnnotation::Test { file: file!(), line: line!() })
+                .map_err(|e| format!("{e:?}"))
+        }
+        /// `ensure_mapped(start, pages, No, ReadWrite, test annotation)`.
+        pub fn ensure_mapped(&self, start: Address, pages: usize) -> Result<(), String> {
+            self.0
+                .ensure_mapped(start, pages, HugePageSupport::No, MmapProtection::ReadWrite, &MmapAnnotation::Test { file: file!(), line: line!() })
+                .map_err(|e| format!("{e:?}"))
+        }
+        /// `mark_as_mapped(start, bytes)`.
+        pub fn mark_as_mapped(&self, start: Address, bytes: usize) {
+            self.0.mark_as_mapped(start, bytes)
+        }
+        /// `is_mapped_address(addr)`.
+        pub fn is_mapped_address(&self, addr: Address) -> bool {
+            self.0.is_mapped_address(addr)
+        }
+        /// Recorded state of a chunk-aligned address: 0 = Unmapped, 1 = Quarantined, 2 = Mapped.
+        pub fn get_state(&self, chunk: Address) -> u8 {
+            self.0.verif_get_state(chunk)
+        }
+        /// `log_mappable_bytes()`.
+        pub fn log_mappable_bytes(&self) -> u8 {
+            self.0.log_mappable_bytes()
+        }
+    }
+}
